@@ -693,6 +693,14 @@ impl InflightBlocks {
             // task number zero means this peer's response is very slow
             if v.task_count == 0 {
                 disconnect_list.insert(*k);
+                // the evicted peer's requests that have not timed out yet are released
+                // with it; otherwise they stay in `inflight_states` without a scheduler,
+                // `remove_by_peer` cannot find them and nobody else can be asked for
+                // these blocks until BLOCK_DOWNLOAD_TIMEOUT
+                for hash in v.hashes.iter() {
+                    states.remove(hash);
+                    trace.remove(hash);
+                }
                 false
             } else {
                 true
